@@ -16,10 +16,10 @@ from pyvc.runner import BoundedResult
 from .common import Vals, Stubs, StubFuncs, real_env, runtime_error, I, cls_name, date_abstractions
 
 MANIFEST_ENTRY = {
-    "category": "proof",
-    "text": "every built-in `execute` inside the engine's subset and every indexing/slicing/membership/iteration/spread/destructuring node is executed symbolically with each argument forking over all value kinds (payloads symbolic): each primitive that can raise a host exception (index, key, int()/float() conversion, division, chr, shift, attribute, iteration, unpacking ...) must be unreachable or converted to CklRuntimeError, the error value must be a language value, loops must terminate; built-ins outside the subset (regex, JSON, date formats, I/O, OS) and all library functions written in Checkerlang are covered by the pool enumeration of the property's own quantifier on the real interpreter (bounded)",
-    "note": "collection arguments are small shapes with symbolic payloads (symbolic-bounded); host recursion/memory limits and astronomically large repetition counts excluded; the list of built-ins proved vs. only enumerated is in the evidence",
-    "technique": "deductive verification: pyvc VCs from the real AST + z3 (kind case split, escape obligations) + bounded pool enumeration (runtime contracts)",
+    'category': 'proof',
+    'text': "every built-in `execute` inside the engine's subset and every indexing/slicing/membership/iteration/spread/destructuring node is executed symbolically with each argument forking over all value kinds (payloads symbolic): each primitive that can raise a host exception (index, key, int()/float() conversion, division, chr, shift, attribute, iteration, unpacking ...) must be unreachable or converted to CklRuntimeError, the error value must be a language value, loops must terminate; built-ins outside the subset (regex, JSON, date formats, I/O, OS) and all library functions written in Checkerlang are covered by the pool enumeration of the property's own quantifier on the real interpreter (bounded); range() for all int arguments and steps (loop contracts of C19, no exception allowed)",
+    'note': 'collection arguments are small shapes with symbolic payloads (symbolic-bounded); host recursion/memory limits and astronomically large repetition counts excluded; the list of built-ins proved vs. only enumerated is in the evidence',
+    'technique': 'deductive verification: pyvc VCs from the real AST + z3 (kind case split, escape obligations) + bounded pool enumeration (runtime contracts)',
 }
 PROPERTY = "C13"
 LEVEL = "proof"
@@ -213,6 +213,10 @@ def units(w):
     U.append(node_unit("NodeDerefSlice", {"expression": lambda it: child("c"), "start": lambda it: child("a"), "end": lambda it: child("b")},
                        name="nodes.py::NodeDerefSlice.evaluate[all kinds, a to b]"))
     U.append(node_unit("NodeDerefAssign", {"expression": lambda it: child("c"), "index": lambda it: child("i"), "value": lambda it: child("v")}))
+    # range(): outside the kind enumeration above (its loops need contracts); the C19 units prove it for all int arguments
+    # and steps with no exception allowed
+    from . import c19
+    U.extend([u for u in c19.units(w) if u.name.startswith("functions.py::FuncRange.execute[")])
     return U
 
 
